@@ -259,6 +259,10 @@ class FnExt(T.Fn):
 
     def registry_entry(self, func):
         hits = [e for e in T.REGISTRY if e["func"] == func and "loop_body" not in e and "after" not in e]
+        if len(hits) > 1:
+            # several units tie the same source function under different Lean names: the callable one is the one `done` holds
+            lean = (self.done.get(func) or {}).get("lean")
+            hits = [e for e in hits if e.get("lean", e["func"].split(".")[-1]) == lean] or hits
         return hits[0] if len(hits) == 1 else None
 
     def call_with_values(self, name, n, env):
